@@ -1,4 +1,4 @@
 From Coq Require Import Extraction ExtrOcamlBasic NArith.
 From SF Require Import Base.Outcome Base.Bytes Base.GeomAST Model.WKB Model.Build.
 Extraction Language OCaml.
-Extraction "model.ml" enc enc_bo dec dec_alloc scan wf_wkb build N.add N.mul N.of_nat N.to_nat.
+Extraction "model.ml" enc enc_bo dec dec_alloc scan wf_wkb build is_empty N.add N.mul N.of_nat N.to_nat.
